@@ -18,7 +18,7 @@ CONES = {
     "C01": {"ops", "mstate", "now", "events", "outcome"},
     "C02": {"ops", "mocc", "mout", "now", "sto", "events"},
     "C03": {"stores", "loc", "tjob", "mstate", "tstate", "events", "shape"},
-    "C04": {"ops", "loc", "now", "outcome"},
+    "C04": {"ops", "loc", "now", "outcome", "env", "middleware"},
     "C05": {"ops", "loc", "stores", "mstate", "mocc", "tool", "mout", "tstate", "tocc", "tloc", "tjob", "tout", "now",
             "sto", "offers", "outcome", "events", "shape"},
     "C07": {"tocc", "tloc", "tjob", "stores", "loc", "tstate", "sto", "events"},
@@ -27,7 +27,7 @@ CONES = {
     "C10": {"mout", "tout", "mocc", "tocc", "mstate", "tstate"},
     "C11": {"offers", "tocc", "outcome", "events"},
     "C12": {"now", "mocc", "tocc", "ops"},
-    "C18": {"offers", "now", "outcome"},
+    "C18": {"offers", "now", "outcome", "env", "middleware"},
     "C20": {"outcome", "sto"},
 }
 
